@@ -27,6 +27,11 @@ pub struct Plan {
     /// fail the n-th block-file read performed during the failing call
     pub disk_fault_nth: Option<u64>,
     pub extra_after: usize,
+    /// candidate directly on the tip (no competing chain): its second block arrives before its first, so
+    /// that the candidate is first stored off the chain and then wound as a multi-block chain whose old
+    /// segment is empty
+    #[serde(default)]
+    pub second_first: bool,
 }
 
 #[derive(Clone, Debug, PartialEq, Eq)]
@@ -81,6 +86,20 @@ pub fn snap_diff(a: &Snap, b: &Snap) -> Option<&'static str> {
 }
 
 fn gen(seed: u64, tier: Tier) -> Plan {
+    let mut p = gen_base(seed, tier);
+    // one run in six: the candidate sits directly on the tip and its second block arrives first
+    let mut rng = Rng::new(mix(seed, 0x5ec0));
+    if rng.chance(1, 6) {
+        p.main_len = 0;
+        p.cand_len = 3 + rng.below(3) as usize;
+        p.bad_pos = 2 + rng.usize_below(p.cand_len - 2);
+        p.second_first = true;
+        p.disk_fault_nth = None;
+    }
+    p
+}
+
+fn gen_base(seed: u64, tier: Tier) -> Plan {
     let mut rng = Rng::new(seed);
     let (max_main, max_cand) = if tier == Tier::Quick { (4, 5) } else { (10, 7) };
     let main_len = rng.below(max_main as u64 + 1) as usize;
@@ -106,6 +125,7 @@ fn gen(seed: u64, tier: Tier) -> Plan {
         prune_after,
         disk_fault_nth,
         extra_after: rng.below(3) as usize,
+        second_first: false,
     }
 }
 
@@ -116,7 +136,7 @@ impl Scenario for C04 {
     fn meta(&self) -> Meta {
         Meta {
             level: "exploration",
-            rule: "run = shared prefix + main chain (0..M blocks) + candidate chain (1..F blocks, longer than main) whose block at bad_pos carries one of 11 header/transaction edits that only validation notices (re-signed, so decodable and self-consistent) or, in a quarter of the runs, a transaction whose input is not spendable on that branch (already spent by an ancestor, or never existed); candidate blocks are delivered in order, so the ones not longer than main are stored unvalidated and the first longer one triggers the reorganisation attempt; optional disk read fault on the n-th block-file read of that call; prune depth 1..8 so that unwinding needs Pruned->Full upgrades. Oracle: full snapshot {tip, spendable set, index for all ids, stored blocks + on-chain flags, wallet slips/unspent/balance} before == after every call that does not return BlockAddedSuccessfully; step budget 8*(|new|+|old|)+16 on the wind/unwind loop; afterwards the node must still extend its chain. distinct_nontrivial = distinct (|main|, |cand|, bad_pos, kind, disk fault, prune depth) whose triggering call entered validation and was rejected.",
+            rule: "run = shared prefix + main chain (0..M blocks) + candidate chain (1..F blocks, longer than main) whose block at bad_pos carries one of 11 header/transaction edits that only validation notices (re-signed, so decodable and self-consistent) or, in a quarter of the runs, a transaction whose input is not spendable on that branch (already spent by an ancestor, or never existed); candidate blocks are delivered in order, so the ones not longer than main are stored unvalidated and the first longer one triggers the reorganisation attempt (when the candidate sits directly on the tip, in a sixth of all runs (candidate of 3-5 blocks on the tip) its second block is delivered before its first, so that a multi-block candidate with an empty old segment is wound); optional disk read fault on the n-th block-file read of that call; prune depth 1..8 so that unwinding needs Pruned->Full upgrades. Oracle: full snapshot {tip, spendable set, index for all ids, stored blocks + on-chain flags, wallet slips/unspent/balance} before == after every call that does not return BlockAddedSuccessfully; step budget 8*(|new|+|old|)+16 on the wind/unwind loop; afterwards the node must still extend its chain. distinct_nontrivial = distinct (|main|, |cand|, bad_pos, kind, disk fault, prune depth) whose triggering call entered validation and was rejected.",
             real: &["Blockchain::add_block/validate/wind_chain/unwind_chain/add_block_failure", "Block::validate/upgrade_block_to_block_type", "BlockRing", "Wallet::on_chain_reorganization", "Storage"],
             stubs: &["SimIo (in-memory disk with read faults)", "SimConfig", "vendored ahash"],
             assumptions: &["transaction-level invalidity is C01's (Block::validate verdict on transactions)", "genesis period >> chain length", "block cache type (Pruned/Full) is not part of the compared state"],
@@ -287,7 +307,21 @@ impl Scenario for C04 {
         }
         let main_tip = n.tip();
         let mut rejected_in_validation = false;
-        for (j, ci) in cand.iter().enumerate() {
+        // delivery order of the candidate
+        let second_first = plan.second_first && plan.main_len == 0 && cand.len() >= 3 && plan.bad_pos >= 2;
+        let mut cand_order: Vec<(usize, usize)> = cand.iter().cloned().enumerate().collect();
+        if second_first {
+            cand_order.swap(0, 1);
+            r.fault("candidate_second_block_delivered_first", 1);
+        }
+        for (j, ci) in cand_order.iter().map(|(j, ci)| (*j, ci)) {
+            if second_first && j <= 1 {
+                // the two swapped deliveries are judged by C03/C05 (a block before its parent); here they
+                // only set the stage
+                let bytes = w.recs[*ci].bytes.clone();
+                let _ = crate::util::guarded(|| n.add_block_bytes(&bytes));
+                continue;
+            }
             let triggers = j + 1 > plan.main_len;
             let fault = if triggers { plan.disk_fault_nth } else { None };
             let oc = deliver(&w, max_id, &mut n, *ci, &mut r, &mut trace, fault);
@@ -342,7 +376,8 @@ impl Scenario for C04 {
                 .u64(plan.bad_pos as u64)
                 .str(&plan.bad_kind)
                 .u64(plan.disk_fault_nth.map(|x| x + 1).unwrap_or(0))
-                .u64(plan.prune_after);
+                .u64(plan.prune_after)
+                .u64(second_first as u64);
             r.nontrivial.push(d.get());
         }
         r.state_hash = {
